@@ -2,7 +2,7 @@
 import ast
 
 from ..model import AnalysisError, Model, walk_no_nested, norm_stmt, names_in
-from .. import flow, siblings, dispatch, sem
+from .. import flow, siblings, dispatch, sem, deleg
 
 EXPLANATION = (
     'Decided on codecs/jer.py and codecs/xer.py: (R1) every type class that defines encode defines decode, and every XER class that overrides '
@@ -12,7 +12,9 @@ EXPLANATION = (
     'produced from the unmodified float: no arithmetic on the float between the parameter and the formatting sink, no exponent marker appended to a '
     '`{}`-formatted float, and the three special values are tested before any loop or formatting; (R4) indentation does not touch values: '
     'indent_xml assigns .text only on elements that have children and JER indentation is delegated to json.dumps; (R5) member presence is '
-    'membership in the value.  Not decided: that the document is valid JSON/XML for all strings (escaping is delegated to json/ElementTree); '
+    'membership in the value; (R6) pass-through shortcuts cover identity conversions only; (R7) delegation mirror: under every configuration '
+    'assignment each set of child methods a decode / decode_of path hands the element to is the mirror of a set the encode / encode_of paths hand the value '
+    'to (a document-dependent choice between two child protocols for the same encoder output is reported).  Not decided: that the document is valid JSON/XML for all strings (escaping is delegated to json/ElementTree); '
     'value equality after decode.')
 JER = 'asn1tools/codecs/jer.py'
 XER = 'asn1tools/codecs/xer.py'
@@ -444,6 +446,33 @@ def check(ctx):
         for node, why in bad:
             ctx.violation('C02.R5', f._mod.rel, node, Model.qual(f), why + ': a present NULL member is dropped from the document', stmt='presence by value')
 
+    # ---- R7: delegation mirror (sa/deleg.py)
+    ctx.rule('C02.R7', 'per configuration, decode / decode_of hand the element to the mirrored methods of the children that encode / encode_of handed the value to')
+    n7 = 0
+    for rel in (JER, XER):
+        for c in model.mod(rel).classes.values():
+            if c.name in ('Compiler',):
+                continue
+            for en, dn in (('encode', 'decode'), ('encode_of', 'decode_of')):
+                er, dr = c.find_method(en), c.find_method(dn)
+                if not er or not dr or (er[1]._mod.rel != rel and dr[1]._mod.rel != rel):
+                    continue
+                if er[1]._cls is not c and dr[1]._cls is not c:
+                    continue        # inherited pair: decided at the defining class
+                mm = deleg.mismatches(c, en, dn)
+                if mm is None:
+                    ctx.instance('C02.R7', '%s.%s/%s' % (c.qname, en, dn), 'undecided', 'too many paths or configuration atoms', nontrivial=False, node=dr[1], file=rel)
+                    continue
+                n7 += 1
+                ctx.instance('C02.R7', '%s.%s/%s' % (c.qname, en, dn), 'mirrored' if not mm else 'VIOLATION', nontrivial=any(d for _k, d in (deleg.deleg_paths(c, dr[1]) or [])), node=dr[1], file=rel)
+                for asg, extra, es in mm:
+                    ctx.violation('C02.R7', rel, dr[1], Model.qual(dr[1]),
+                                  'under the configuration %s the decoder can hand the element to %s while the encoder hands the value to %s only: the same encoder output is read '
+                                  'by a different child protocol depending on the document (element name, key), so the codec cannot always decode what it wrote'
+                                  % ({k: v for k, v in asg.items()} or '{}', [sorted(x) for x in extra], [sorted(x) for x in es]), stmt='%s delegations differ from %s' % (dn, en))
+    if n7 < 40:
+        raise AnalysisError('C02.R7 examined only %d method pairs' % n7)
+
 
 def _abstract(f):
     body = [s for s in f.body if not (isinstance(s, ast.Expr) and isinstance(s.value, ast.Constant))]
@@ -535,3 +564,48 @@ MUTANTS.append(dict(name='jer.SequenceOf passes string-typed elements through (t
             return list(data)
 
 """, expect='C02.R6'))
+
+MUTANTS.append(dict(name='xer.Recursive list elements: new form emitted, old wrapped form still accepted by tag', file=XER, quick=True,
+                    old="""    def decode(self, element):
+        return self._inner.decode(element)
+
+
+class CompiledType(compiler.CompiledType):""", new="""    def decode(self, element):
+        return self._inner.decode(element)
+
+    def encode_of(self, data):
+        if isinstance(self._inner, Choice):
+            return self._inner.encode_of(data)
+
+        return self.encode(data)
+
+    def decode_of(self, element):
+        if isinstance(self._inner, Choice) and element.tag != self.name:
+            return self._inner.decode_of(element)
+
+        return self.decode(element)
+
+
+class CompiledType(compiler.CompiledType):""", expect='C02.R7'))
+REFACTORS.append(dict(name='xer.Recursive list elements delegated consistently', file=XER,
+                      old="""    def decode(self, element):
+        return self._inner.decode(element)
+
+
+class CompiledType(compiler.CompiledType):""", new="""    def decode(self, element):
+        return self._inner.decode(element)
+
+    def encode_of(self, data):
+        if isinstance(self._inner, Choice):
+            return self._inner.encode_of(data)
+
+        return self.encode(data)
+
+    def decode_of(self, element):
+        if isinstance(self._inner, Choice):
+            return self._inner.decode_of(element)
+
+        return self.decode(element)
+
+
+class CompiledType(compiler.CompiledType):"""))
